@@ -109,3 +109,84 @@ Proof. exact blocks_only_on_mutex. Qed.
 Theorem soh_deadlock_free : forall th progs s,
   R th progs s -> quiescent glob loc tstep s -> all_fin glob loc fin s = true.
 Proof. exact quiescent_all_finished. Qed.
+(* every schedule from every reachable state makes at most mu moves (mu: (N+4) per remaining
+   operation plus the rest of the current one, N = number of insertions in the programs):
+   there is no retry loop in this class, so this is termination of every program *)
+Theorem soh_bounded_work : forall th progs s sc, R th progs s ->
+  (moves glob loc tstep s sc <= mu (total_ins progs) s)%nat.
+Proof. exact bounded_work. Qed.
+
+(* ---------- the sequential map is the specification (soh_seq_refines) ----------
+   abs turns the sorted association lists into finite maps Z -> option _.  Each method body, run
+   alone (apply_sop / pscan: what one critical section does, by soh_section_refines), is the
+   operation of a pair of finite maps written in spec_sop / spec_ret / pscan_post:
+   addObject refuses duplicates without replacing (and leaves existing tags alone); addType appends,
+   creating the tag entry if needed; removeObject(name) deletes the entry and its tags;
+   copyObject aliases object and tags under the new name unless it exists; find / check / getObjects
+   / empty read exactly the stored contents; the predicate forms act on the matching entry with the
+   least key - removal deletes it and its tags - and a throwing predicate changes nothing. *)
+Theorem soh_seq_refines : forall o arg om tm om' tm' r tch,
+  sorted om -> sorted tm -> apply_sop o arg om tm = (om', tm', r, tch) ->
+  aeq (abs om') (fst (spec_sop o arg (abs om) (abs tm))) /\
+  aeq (abs tm') (snd (spec_sop o arg (abs om) (abs tm))) /\
+  spec_ret o (abs om) (abs tm) r.
+Proof. exact seq_refines_sop. Qed.
+Theorem soh_seq_refines_pred : forall thr o om tm c s' r, sorted om ->
+  pscan thr o om tm om c = (s', r) -> pscan_post o om tm s' r.
+Proof. exact seq_refines_pop. Qed.
+Theorem soh_seq_refines_found : forall o om tm k p om' tm' rv,
+  sorted om -> sorted tm -> pfound o om tm k p = (om', tm', rv) ->
+  if is_rem o then aeq (abs om') (aupd (abs om) k None) /\ aeq (abs tm') (aupd (abs tm) k None) /\ rv = 1
+  else om' = om /\ tm' = tm /\ rv = Z.of_nat (pid p).
+Proof. exact pfound_spec. Qed.
+Theorem soh_maps_sorted : forall th progs s, R th progs s -> sorted (omap (gl s)) /\ sorted (tmap (gl s)).
+Proof. exact maps_sorted. Qed.
+
+(* ---------- non-vacuity: the hypotheses are met by concrete reachable states ---------- *)
+Definition runS := run glob loc tstep.
+Definition t3 (t : nat) : list (nat * nat) := [(t, 0); (t, 0); (t, 0)]%nat.
+
+(* thread 1 obtains the object, thread 0 removes it from the map: the object is still alive, with
+   exactly one owner, the client slot *)
+Definition ex1_progs := [[OS (AddT 0 5 1); OS (RemName 0)]; [OS (FindName 0 false); OL (ReadObj false)]].
+Definition ex1 := runS (init [] ex1_progs) (t3 0 ++ t3 1 ++ t3 0).
+Example ex_alive_after_removal :
+  omap (gl ex1) = [] /\ tmap (gl ex1) = [] /\
+  (exists l, nth_error (thr ex1) 1 = Some l /\ getslot false (slots l) = Some (1%nat, 5)) /\
+  rc_of (heap (gl ex1)) 1 = 1%nat /\ length (log (gl ex1)) = 3%nat.
+Proof. vm_compute. repeat split; auto. eexists; split; reflexivity. Qed.
+(* ... and it is destroyed when the client drops it *)
+Example ex_destroyed_after_drop :
+  let s := runS (init [] [[OS (AddT 0 5 1); OS (RemName 0)]; [OS (FindName 0 false); OL (Drop false)]])
+                (t3 0 ++ t3 1 ++ t3 0 ++ [(1, 0)]%nat) in
+  rc_of (heap (gl s)) 1 = 0%nat /\ faulted (gl s) = false.
+Proof. vm_compute. auto. Qed.
+
+(* a thread inside a predicate scan (it owns the mutex), another one blocked on the lock *)
+Definition ex2 := runS (init [] [[OS (Add 0 1); OS (Add 1 2); OP (FindPred 2 false)]; [OS (RemName 0)]])
+                       (t3 0 ++ t3 0 ++ [(0, 0); (0, 0); (0, 0); (1, 0)]%nat).
+Example ex_inside_scan :
+  mtx (gl ex2) = Some 0%nat /\ pcof (thr ex2) 0 = Call (FindPred 2 false) 1 /\ pcof (thr ex2) 1 = SLock (RemName 0) /\
+  (exists l, nth_error (thr ex2) 1 = Some l /\ tstep 1 0 (gl ex2) l = None).
+Proof. vm_compute. repeat split; auto. eexists; split; reflexivity. Qed.
+
+(* the first predicate invocation throws: the exception leaves, the mutex is free, the maps are unchanged,
+   the log records the exceptional outcome *)
+Example ex_throwing_predicate :
+  let s := runS (init [0] [[OS (AddT 3 7 1); OP (RemPred 7)]]) (t3 0 ++ [(0, 0); (0, 0); (0, 0); (0, 0)]%nat) in
+  mtx (gl s) = None /\ omap (gl s) = [(3, (1%nat, 7))] /\ tmap (gl s) = [(3, [1])] /\
+  map e_ret (log (gl s)) = [Some 1; None] /\ all_fin glob loc fin s = true.
+Proof. vm_compute. repeat split; auto. Qed.
+
+(* the program of soh_unfixed_refuted under the repaired order: no fault, entry and tags removed *)
+Example ex_fixed_witness :
+  let s := runS (init [] witness_progs) witness_sched in
+  faulted (gl s) = false /\ omap (gl s) = [] /\ tmap (gl s) = [] /\ rc_of (heap (gl s)) 1 = 0%nat.
+Proof. vm_compute. auto. Qed.
+
+(* removal by predicate takes the first match in key order, copyObject aliases object and tags *)
+Example ex_first_match_and_copy :
+  let s := runS (init [] [[OS (AddT 2 9 4); OS (Copy 2 1); OS (Add 0 8); OP (RemPred 9)]])
+                (t3 0 ++ t3 0 ++ t3 0 ++ [(0, 0); (0, 0); (0, 0); (0, 0); (0, 0)]%nat) in
+  omap (gl s) = [(0, (2%nat, 8)); (2, (1%nat, 9))] /\ tmap (gl s) = [(2, [4])] /\ rc_of (heap (gl s)) 1 = 1%nat.
+Proof. vm_compute. auto. Qed.
